@@ -113,12 +113,18 @@ func runC15(s *Sim) {
 		unconsumed = Pick(t, "unconsumed-n", 5, 12, 40, 300)
 	}
 	var pendingOps []*Op
+	impatient := map[*Op]bool{}
 	holdUntil := time.Duration(-1)
 	if manyPending > 0 {
 		s.Broker.HoldMetadata = true
 		holdUntil = s.Now() + Pick(t, "pending-for", 3*iv+to, iv+time.Millisecond, 6*iv)
 		for k := 0; k < manyPending; k++ {
 			op := y.sendMetaOp(fmt.Sprintf("pending-%d", k))
+			if k%4 == 1 {
+				// some callers do not wait that long: their deadline passes, which is their business only
+				op.CtxKind, op.Timeout = "deadline", Pick(t, "pending-deadline", time.Second, iv/2+time.Millisecond, 100*time.Millisecond)
+				impatient[op] = true
+			}
 			pendingOps = append(pendingOps, s.Start(2+k, op))
 		}
 		s.Wait()
@@ -222,6 +228,9 @@ func runC15(s *Sim) {
 	s.Broker.ReleaseAll()
 	y.Pump()
 	for _, op := range pendingOps {
+		if impatient[op] && op.harvested && isCtxErr(op.Err) {
+			continue
+		}
 		if len(s.Net.DialTimes) == 1 && (!op.harvested || op.Err != nil) {
 			s.Violate("C15.live-peer-dropped", "request-lost", "SendMetadata(%s), one of %d requests answered late by a broker that answered every ping at once: returned=%v err=%s", op.Args, manyPending, op.harvested, errString(op.Err))
 			break
